@@ -4,6 +4,7 @@ package main
 // Resp.tla (RespTrace.tla).
 
 import (
+	"fmt"
 	"bufio"
 	"bytes"
 	"encoding/json"
@@ -201,17 +202,33 @@ func respRun(in []byte) (interface{}, error) {
 		br := bufio.NewReaderSize(&fragReader{b: append([]byte{}, stream...), rnd: rnd, max: 1 + rnd.Intn(9)}, bs)
 		d := redis.NewDecoder(br)
 		vals := []map[string]interface{}{}
+		var reenc []tracer.Ev
 		for {
 			r, off, err := redis.VerifDecode(d)
 			if err != nil {
 				break
 			}
-			vals = append(vals, map[string]interface{}{"val": fromResp(r), "off": off})
+			snap := fromResp(r) // (a deep copy, taken before the value is handed to the encoder)
+			vals = append(vals, map[string]interface{}{"val": snap, "off": off})
+			if kind == "stream" && len(reenc) < 4 {
+				// what the decoder returned goes back through the encoder (as restore / decode modes do): the arguments of an
+				// inline command are views into one line buffer; encoding must neither depend on nor disturb its input
+				if out, err := redis.EncodeToBytes(r); err == nil {
+					reenc = append(reenc, tracer.Ev{"e": "enc", "val": snap, "out": bytesToInts(out), "src": "decoded"})
+					after := fromResp(r)
+					if fmt.Sprint(after) != fmt.Sprint(snap) {
+						reenc = append(reenc, tracer.Ev{"e": "enc", "val": snap, "out": []int{}, "src": "input-modified-by-encoder"})
+					}
+				}
+			}
 			if len(vals) > 64 {
 				break
 			}
 		}
 		tr.Emit(tracer.Ev{"e": "dec", "kind": kind, "in": bytesToInts(stream), "vals": vals, "buf": bs})
+		for _, e := range reenc {
+			tr.Emit(e)
+		}
 	}
 	// streams: values, keep-alive newlines, inline command lines
 	inl := [][]byte{[]byte("PING\r\n"), []byte("SET k v\r\n"), []byte("  get   a  \r\n"), []byte("x\r\n"), []byte("\r\n"), []byte("a b\n")}
@@ -246,6 +263,22 @@ func respRun(in []byte) (interface{}, error) {
 		if err == nil {
 			out, _ := redis.EncodeToBytes(redis.ChangeArgsToResp(t.A[0].bytes(), args))
 			tr.Emit(tracer.Ev{"e": "chg", "val": t, "out": bytesToInts(out)})
+			// the same arguments as views into ONE buffer with spare capacity behind each (as a receive buffer has)
+			var shared []byte
+			var lens []int
+			for _, a := range args {
+				shared = append(shared, a...)
+				lens = append(lens, len(a))
+			}
+			shared = append(shared, "tail-of-the-buffer"...)
+			views := make([][]byte, len(args))
+			p := 0
+			for j, n := range lens {
+				views[j] = shared[p : p+n]
+				p += n
+			}
+			out2, _ := redis.EncodeToBytes(redis.ChangeArgsToResp(t.A[0].bytes(), views))
+			tr.Emit(tracer.Ev{"e": "chg", "val": t, "out": bytesToInts(out2), "src": "views"})
 		}
 	}
 	// every single-point substitution (a few byte classes) and every truncation of small encodings
